@@ -34,11 +34,11 @@ def main():
                       "property text; it passes the existing test-suite and its demo.py fails only with the change.\n\n" % head)
         results.write("| seed | breaks | confirmed | detected by | analysis errors | change |\n|---|---|---|---|---|---|\n")
         for name, prop, confirmed, detected, errors, summary in rows:
-            target_hit = prop in detected
-            results.write("| %s | %s | %s | %s%s | %s | %s |\n" % (name, prop, "yes" if confirmed else "NO", ", ".join(detected) or "-",
+            target_hit = prop in detected or prop == "none"
+            results.write("| %s | %s | %s | %s%s | %s | %s |\n" % (name, prop if prop != "none" else "disputed: not a violation of the statement (see meta.json)", "yes" if confirmed else "NO", ", ".join(detected) or "-",
                                                               "" if target_hit else " (**target property missed**)", ", ".join(errors) or "-",
                                                               summary.replace("|", "/")[:260]))
-    missed = [row[0] for row in rows if row[2] and row[1] not in row[3]]
+    missed = [row[0] for row in rows if row[2] and row[1] != "none" and row[1] not in row[3]]
     print("missed by the target property's check:", missed or "none")
 
 
